@@ -395,14 +395,17 @@ func main() {
 	}
 	defer drv.Close()
 	h := &harness{run: run, drv: drv}
-	run.Res.Rule = "configurations = gen.SchemaGen output re-expressed as constructor calls (random thunk/direct forms, covariant implementers, unreachable types, custom directives) with 0, 1 or 2 single-aspect malformations out of 37 kinds (duplicate names across kinds and with built-ins, invalid names for every kind / member, empty and absent and unknown-typed member sets, nil members, nil / typed-nil types, List/NonNull of nil and NonNull of NonNull at any depth, kind mismatches, nine interface-conformance breaks, roots, scalars, unions, directives, defects behind thunk cycles or reachable only through Types) + 76 hand-written families; AppendType: every order of 1..4 extra types against supplying them up front; non-trivial = hand-written family, or >= 3 user types; distinct by (configuration, append order)"
+	run.Res.Rule = "configurations = gen.SchemaGen output re-expressed as constructor calls (random thunk/direct forms, covariant implementers, unreachable types, custom directives) with 0, 1 or 2 single-aspect malformations out of 37 kinds (duplicate names across kinds and with built-ins, invalid names for every kind / member, empty and absent and unknown-typed member sets, nil members, nil / typed-nil types, List/NonNull of nil and NonNull of NonNull at any depth, kind mismatches, nine interface-conformance breaks, roots, scalars, unions, directives, defects behind thunk cycles or reachable only through Types) + 76 hand-written families; AppendType: every order of 1..4 extra types against supplying them up front; non-trivial = hand-written family, or >= 3 user types; distinct by (configuration, append order); histories: AddFieldConfig on objects / interfaces / input objects (good and bad fields: wrong kind, bad names, nil configs, bad wrappers, types not yet in the type map, overwritten interface fields; plain-map and thunked Fields; before or after NewSchema; registered or fresh targets) followed by AppendType of the mutated / a referring / an unrelated type or nothing, every prefix checked against the model (lean/GqlModel/SchemaLive.lean), against Consistent, and against NewSchema on the same final configuration"
 
 	if run.ReplayIn != "" {
 		var rp struct {
-			Case caseT `json:"case"`
+			Case    caseT     `json:"case"`
+			History *histCase `json:"history"`
 		}
-		if err := hx.LoadReplay(run.ReplayIn, &rp); err != nil || rp.Case.Config == nil {
+		if err := hx.LoadReplay(run.ReplayIn, &rp); err != nil || (rp.Case.Config == nil && rp.History == nil) {
 			run.CheckError(fmt.Sprint("cannot load replay: ", err))
+		} else if rp.History != nil {
+			h.checkPrefix(*rp.History)
 		} else {
 			h.check(rp.Case, true)
 		}
@@ -444,6 +447,21 @@ func main() {
 		base.Extra = []*TR{}
 		xs, tags := extraTypes(base, r)
 		h.appendScenario(base, xs, tags)
+	}
+	// histories: type objects mutated after construction (AddFieldConfig), then AppendType
+	for _, f := range historyFamilies() {
+		if run.TooManyViolations() {
+			break
+		}
+		h.checkHistory(histCase{Config: f.cfg, Steps: f.steps, Tags: []string{"history-family"}})
+	}
+	nh := run.N(220, 12000)
+	for i := 0; i < nh && !run.TooManyViolations(); i++ {
+		r := hx.Fork(run.Seed, 2_000_000+i)
+		if c, ok := genHistory(r); ok {
+			dedupKeys(c.Config)
+			h.checkHistory(c)
+		}
 	}
 	_ = json.Marshal
 	run.Finish()
